@@ -284,6 +284,42 @@ def r3_mmap(rule, root=None):
         rule.bad("mmapwriter|grow", "double_capacity must allocate a larger mapping, copy the `len()` written bytes from the old one and swap (%s)" % why, A.where(fn))
 
 
+def _scratch_refill(fn):
+    """`dst[0..n].copy_from_slice(src)` with dst the k-th scratch row and src the k-th input, for every k
+    (a zip, an enumerate or an index loop)"""
+    for c in A.find(fn["body"], "MethodCall"):
+        if c["method"] != "copy_from_slice" or len(c["args"]) != 1:
+            continue
+        loops = [b_ for b_ in (A.enclosing_binders(fn["body"], c) or []) if b_[2].get("k") == "For"]
+        if not loops:
+            continue
+        lanes = A.lane_bindings(loops[-1][2])
+        if lanes is None:
+            continue
+        idx, elems = lanes
+        recv = A.strip(c["recv"])
+        if recv.get("k") != "Index" or str(A.ftxt(recv["index"])) not in ("0..n", "..n"):
+            continue
+
+        def slot(e, base):
+            e = A.strip(e)
+            while e.get("k") in ("Ref", "Paren") or (e.get("k") == "Unary" and e.get("op") == "*"):
+                e = A.strip(e["e"])
+            n_ = A.ident(e)
+            if n_ and elems.get(n_) == base:
+                return idx or "#lockstep"
+            if e.get("k") == "Index" and str(A.ftxt(A.strip(e["e"]))) == base and A.ident(A.strip(e["index"])) == idx and idx:
+                return idx
+            return None
+
+        a, b = slot(recv["e"], "self.scratch"), slot(c["args"][0], "vars")
+        src = str(A.ftxt(A.strip(loops[-1][2]["iter"])))
+        whole = ("vars" in [elems.get(x) for x in elems]) or src in ("0..vars.len()", "(0..vars.len())")
+        if a is not None and a == b and whole:
+            return True
+    return False
+
+
 def r4_pointer_lists(rule, root=None):
     fn = A.find_fn(JIT, "eval", self_ty="JitBulkEval", root=root)
     calls = A.linear_calls(fn)
@@ -304,7 +340,7 @@ def r4_pointer_lists(rule, root=None):
                 rule.ok("%s cleared before extend #%d" % (vec, ext.index(e)), file=JIT, line=e["node"]["ln"])
     # scratch refill
     t = A.ftxt(fn["body"])
-    if "self.scratch.resize(vars.len()," in t and "t[0..n].copy_from_slice(v)" in t:
+    if "self.scratch.resize(vars.len()," in t and ("t[0..n].copy_from_slice(v)" in t or _scratch_refill(fn)):
         rule.ok("short batches: scratch rows resized to the variable count and refilled from the inputs")
     else:
         rule.bad("scratch", "the short-batch path must resize the scratch rows to vars.len() and copy each input into its row", A.where(fn))
